@@ -89,9 +89,9 @@ FORM_NAMES = {
 CALLER_SRC = {
     "I": "<%include file=\"${context['u']}\"/>",
     "X": "<%inherit file=\"${context['u']}\"/>caller-body",
-    "N": "<%namespace name=\"n\" file=\"${context['u']}\"/>${n.mark()}",
+    "N": "<%namespace name=\"n\" file=\"${context['u']}\"/>${n.body()}",
     "A": "${local.get_template(context['u']).render_unicode()}",
-    "S": "${local.get_namespace(context['u']).mark()}",
+    "S": "${local.get_namespace(context['u']).body()}",
 }
 
 
@@ -106,23 +106,26 @@ _TM = cfg_id("two", True)
 OTHER_TAGS = ["X", "N", "A", "S"]
 PLANS = {
     "quick": [
-        (["G"], [0], [_AO, _TM], 4, 3),
+        (["G"], [0], [_AO], 4, 3),
         (["G"], [0], ALL_CFG, 3, 2),
         (["H"], [0], [_AO], 3, 2),
         (["H"], [0], ALL_CFG, 2, 2),
         (["I"], [1], [_AO], 4, 2),
-        (["I"], [0, 1, 2, 3], [_AO, _TM], 3, 2),
-        (OTHER_TAGS, [0, 1, 2, 3], [_AO], 3, 2),
-        (OTHER_TAGS, [0, 1, 2, 3], [_TM], 2, 2),
+        (["I"], [0, 1, 2, 3], [_AO], 3, 2),
+        (OTHER_TAGS, [1], [_AO], 3, 2),
+        (TAG_FORMS, [0, 1, 2, 3], [_AO, _TM], 2, 2),
     ],
     "thorough": [
         (["G"], [0], [_AO], 6, 4),
-        (["G"], [0], [_TM], 5, 4),
-        (["G"], [0], ALL_CFG, 5, 3),
-        (["H"], [0], ALL_CFG, 4, 3),
-        (["I"], [0, 1, 2, 3], [_AO], 5, 3),
-        (TAG_FORMS, [0, 1, 2, 3], [_AO, _TM], 4, 3),
-        (TAG_FORMS, [0, 1, 2, 3], ALL_CFG, 3, 2),
+        (["G"], [0], [_TM], 5, 3),
+        (["G"], [0], ALL_CFG, 4, 3),
+        (["H"], [0], [_AO], 4, 3),
+        (["H"], [0], ALL_CFG, 3, 2),
+        (["I"], [1, 2, 3], [_AO], 5, 3),
+        (["I"], [0], [_AO], 4, 3),
+        (OTHER_TAGS, [0, 1, 2, 3], [_AO], 4, 2),
+        (TAG_FORMS, [0, 1, 2, 3], [_AO, _TM], 3, 2),
+        (TAG_FORMS, [0, 1, 2, 3], ALL_CFG, 2, 2),
     ],
 }
 
@@ -196,15 +199,18 @@ def gen_uris(tier, seed, shard=0, nshards=1):
                     for pre in PREFIXES:
                         for suf in SUFFIXES:
                             yield pre + body + suf, n, fam
-        if n - 1 <= b["abs_tail"] and n >= 2:
-            # absolute family with n-1 tail segments
-            for segs in itertools.product(S, repeat=n - 1):
+        # absolute-path family: [empty segment] + <absolute path of the tree> + tail, n segments in all
+        for lead in ((), ("",)):
+            k = n - 1 - len(lead)
+            if k < 0 or k > b["abs_tail"]:
+                continue
+            for segs in itertools.product(S, repeat=k):
                 key = "ABS|" + "|".join(x for x in segs if x)
                 if zlib.crc32(key.encode()) % nshards != shard:
                     continue
                 for ab in (ABS_SLASH, ABS_BACK):
                     for seps in pats:
-                        body = _join((ab,) + segs, seps)
+                        body = _join(lead + (ab,) + segs, seps)
                         for pre in PREFIXES:
                             for suf in SUFFIXES:
                                 yield pre + body + suf, n, "pat"
@@ -227,86 +233,82 @@ def ref_tokens(uri):
     return [t for t in _SPLIT.split(uri) if t != "" and t != "."]
 
 
-def ref_walk(depth_dirs, toks):
-    """Walk toks from <root>/<depth_dirs...>.  Path components are kept
-    relative to the scratch tree T; the root is the single component 'R'.
-    returns (final components or None when the walk went above T, left_root)"""
-    st = ["R"] + list(depth_dirs)
+def ref_walk(start, toks):
+    """Walk toks from the directory `start` (components relative to the
+    scratch tree T, start[0] = the root's own name).
+    returns (final components, or None when the walk went above T; left_root)"""
+    st = list(start)
     left = False
     for t in toks:
+        if st is None:
+            break
         if t == "..":
-            if st is None:
-                continue
             if st:
                 st.pop()
             else:
-                st = None  # above the scratch tree: can never come back (its name is not spellable)
+                st = None  # above the scratch tree: it can never come back (T's name is not spellable)
             if not st:
                 left = True
-        elif st is not None:
+        else:
             st.append(t)
     return (tuple(st) if st is not None else None), left
 
 
-def ref_class(uri, form, depth, D, roots=()):
-    """-> (must_refuse, nontrivial, [final components per interpretation])"""
+def ref_class(uri, form, depth, D, roots):
+    """-> (must_refuse, left_some_root, ambiguous, [final components per root x interpretation])
+
+    must_refuse: under every admissible reading and from every configured
+    root the URI resolves (lexically) to a path outside all configured roots."""
     toks = ref_tokens(uri)
-    if form in ("G", "H"):
+    if form in ("G", "H") or uri[:1] == "/":
         interps = [()]
-    elif uri[:1] == "/":
-        interps = [()]
-    elif uri[:1] == "\\":
+    elif uri[:1] == "\\" and depth:
         interps = [(), (D,) * depth]
     else:
         interps = [(D,) * depth]
     finals = []
-    must = True
-    nontriv = False
-    seen = set()
+    inside = 0
+    left_any = False
     for dd in interps:
-        if dd in seen:
-            continue
-        seen.add(dd)
-        fin, left = ref_walk(dd, toks)
-        finals.append(fin)
-        if left:
-            nontriv = True
-        if fin is not None and len(fin) >= 1 and (fin[0] == "R" or fin[0] in roots):
-            must = False
-    return must, nontriv, finals
+        for r in roots:
+            fin, left = ref_walk((r,) + dd, toks)
+            finals.append(fin)
+            left_any = left_any or left
+            if fin is not None and len(fin) >= 1 and fin[0] in roots:
+                inside += 1
+    must = inside == 0
+    ambiguous = 0 < inside < len(finals)
+    return must, left_any, ambiguous, finals
 
 
 # --------------------------------------------------------------------------
 # scratch tree
 
-_MARK = re.compile(r"@@[MD]:([^@]*)@@")
+_MARK = re.compile(r"@@M:([^@]*)@@")
 
 
 def tree_files(nm):
+    """root1 is the directory T/<D> (so that '../<D>/...' re-enters it), the
+    second root of the two-root configuration is T/<O> (outside for every other
+    configuration); T/<S> and T/<N> are outside for every configuration."""
     N, D, S, O = nm["N"], nm["D"], nm["S"], nm["O"]
     rels = [
         S,
         N,
-        D + "/" + N,
         O + "/" + S,
         O + "/" + N,
-        O + "/root/" + N,
-        "root1/" + N,
-        "root1/" + D + "/" + N,
-        "root1/" + D + "/" + D + "/" + N,
-        "root1/.." + N,
-        "root1/" + D + "../" + N,
-        "root2/" + N,
-        "root2/" + D + "/" + N,
-        "root2/" + O + "/" + N,
-        "root2/only2-" + N,
+        O + "/" + D + "/" + N,
+        O + "/only2-" + N,
+        D + "/" + N,
+        D + "/.." + N,
+        D + "/" + D + "../" + N,
     ]
     files = {}
     for r in rels:
-        files[r] = '@@M:%s@@<%%def name="mark()">@@D:%s@@</%%def>' % (r, r)
+        files[r] = "@@M:%s@@" % r
     for f in TAG_FORMS:
         for d in range(4):
-            files["root1/" + (D + "/") * d + "zz-caller-%s.tmpl" % f] = CALLER_SRC[f]
+            files[D + "/" + (D + "/") * d + "zz-caller-%s.tmpl" % f] = CALLER_SRC[f]
     return files
 
 
@@ -361,11 +363,26 @@ _HOOK = {"on": False, "installed": False}
 _WRITE_FLAGS = os.O_WRONLY | os.O_RDWR | os.O_CREAT | os.O_TRUNC | os.O_APPEND
 
 
+class BlockedWrite(BaseException):
+    """raised by the audit hook: the library tried to create / modify something
+    outside the scratch tree (the operation is recorded and NOT performed)"""
+
+
 def _audit(event, args):
     if not _HOOK["on"]:
         return
     if event == "open" or event[:3] == "os." or event[:7] == "shutil." or event[:9] == "tempfile.":
         _EVENTS.append((event, args))
+        T = _HOOK.get("T")
+        if T:
+            for p, wr in event_paths(event, args):
+                if wr:
+                    try:
+                        ap = os.path.normpath(os.path.join(T, os.fsdecode(p)))
+                    except Exception:
+                        continue
+                    if not (ap == T or ap.startswith(T + "/")):
+                        raise BlockedWrite("%s %r" % (event, ap))
 
 
 def install_hook():
@@ -437,16 +454,17 @@ class World:
     def directories(self, cfg):
         T = self.T
         k = cfg["roots"]
+        D, O = self.nm["D"], self.nm["O"]
         if k == "abs":
-            return [T + "/root1"]
+            return [T + "/" + D]
         if k == "slash":
-            return [T + "/root1/"]
+            return [T + "/" + D + "/"]
         if k == "dot":
-            return ["./root1/."]
-        return [T + "/root1", T + "/root2/"]
+            return ["./" + D + "/."]
+        return [T + "/" + D, T + "/" + O + "/"]
 
     def rootnames(self, cfg):
-        return ("root1", "root2") if cfg["roots"] == "two" else ("root1",)
+        return (self.nm["D"], self.nm["O"]) if cfg["roots"] == "two" else (self.nm["D"],)
 
     def cell(self, ci, form, depth):
         key = (ci, form, depth)
@@ -495,18 +513,19 @@ def rec_lookup_class():
 
 
 def uri_shape(form, uri_t):
+    """footprint of a URI spelling: access class, leading separators, and how it climbs"""
     m = re.match(r"[/\\]*", uri_t)
     lead = m.group(0)
     rest = uri_t[len(lead):]
+    toks = ref_tokens(uri_t.replace(ABS_SLASH, "ABS").replace(ABS_BACK, "ABS"))
     feats = []
     if "{ABS" in uri_t:
-        feats.append("abs")
-    if ".." in ref_tokens(uri_t):
-        feats.append("dotdot")
-    if "\\" in rest:
-        feats.append("bs")
-    if "//" in rest or "/\\/" in rest or "\\/" in rest:
-        feats.append("dblsep")
+        feats.append("abspath")
+    if ".." in toks:
+        first = toks.index("..")
+        feats.append("down-then-up" if first > 0 else "dotdot")
+    if "\\" in rest.replace(ABS_BACK, ""):
+        feats.append("backslash-sep")
     if len(lead) > 2:
         lead = lead[:2] + "+"
     return "%s lead=%r %s" % ("direct" if form in "GH" else "tag", lead, "+".join(feats) or "plain")
@@ -526,6 +545,7 @@ def run_case(w, ci, form, depth, uri_t):
     etext = None
     kind = None
     del _EVENTS[:]
+    _HOOK["T"] = T
     _HOOK["on"] = True
     try:
         try:
@@ -548,6 +568,9 @@ def run_case(w, ci, form, depth, uri_t):
                 "invalid" if "cannot be relative outside" in etext else "lookup")
         except Exception as e:  # noqa
             kind = "exc:" + type(e).__name__
+            etext = str(e)
+        except BlockedWrite as e:
+            kind = "exc:BlockedWrite"
             etext = str(e)
     finally:
         _HOOK["on"] = False
@@ -610,9 +633,9 @@ def run_case(w, ci, form, depth, uri_t):
                     break
 
     # oracle 4 (and 3 where the statement fixes the outcome)
-    must, nontriv, finals = ref_class(uri, form, depth, w.nm["D"], roots)
-    if "{ABS" in uri_t:
-        nontriv = True
+    must, left, ambiguous, finals = ref_class(uri, form, depth, w.nm["D"], roots)
+    isabs = "{ABS" in uri_t
+    nontriv = left or isabs
     if must and kind != "refused":
         viols.append(("not-refused[" + kind.split(":")[0] + "]: %s",
                       "4 a URI resolving outside every configured directory raises TemplateLookupException",
@@ -621,20 +644,16 @@ def run_case(w, ci, form, depth, uri_t):
     # outcome class for the histogram
     exists = False
     for fin in finals:
-        if fin is None:
-            continue
-        if fin and fin[0] == "R":
-            rels = [r + "".join("/" + c for c in fin[1:]) for r in roots]
-        else:
-            rels = ["/".join(fin)]
-        if any(rel in w.files for rel in rels):
+        if fin is not None and "/".join(fin) in w.files:
             exists = True
     if must:
         rc = "outside"
-    elif nontriv and "{ABS" not in uri_t:
-        rc = "reenter"
-    elif "{ABS" in uri_t:
+    elif isabs:
         rc = "abspath"
+    elif ambiguous:
+        rc = "ambiguous"
+    elif left:
+        rc = "reenter"
     else:
         rc = "inside"
     obs = {
@@ -697,7 +716,7 @@ def diff_snapshot(w, cfg):
 
 
 def plan(tier, seed):
-    ns = 48 if tier == "quick" else 192
+    ns = 64 if tier == "quick" else 256
     order = list(range(ns))
     # the seed permutes shard order only
     k = seed % ns
